@@ -4998,6 +4998,10 @@ class DecLinConstr(LinConstr):
         if hasattr(ambset, 'model') and ambset.model is not self.model.top:
             raise ValueError('Models mismatch.')
         self.ambset = ambset
+        top = getattr(self.model, 'top', None)
+        if top is not None:
+            top.pupdate = True
+            top.dupdate = True
 
         return self
 
@@ -5085,13 +5089,18 @@ class DecRoConstr(RoConstr):
                 if constr.model is not self.rand_model:
                     raise ValueError('Models mismatch.')
             self.ambset = suppset
-            return self
         else:
             if self.dec_model.top is not ambset.model:
                 raise ValueError('Models mismatch.')
 
             self.ambset = ambset
-            return self
+
+        top = getattr(self.dec_model, 'top', None)
+        if top is not None:
+            top.pupdate = True
+            top.dupdate = True
+
+        return self
 
 
 class DecLMIConstr(LMIConstr):
